@@ -23,7 +23,10 @@ var plans = map[string]*Plan{}
 
 func init() {
 	plans["C05"] = &Plan{
-		Items: []Item{{Plugin: "privileges"}, {Func: "hotline.(*ClientConn).Authorize"}, {Func: "hotline.(*AccessBitmap).IsSet"}},
+		Items: []Item{{Plugin: "privileges"}, {Func: "hotline.(*ClientConn).Authorize"}, {Func: "hotline.(*AccessBitmap).IsSet"},
+			// the upload-folder / drop-box rules look at the path's declared last item: the decoded path
+			// must have exactly the declared number of items
+			{Func: "hotline.(*FilePath).Write"}, {Func: "hotline.(*FilePathItem).Write"}},
 		Decided: []string{
 			"no effect without privilege: at every effect site of every registered handler the path condition implies the governing privilege (by target kind)",
 			"every effect site is classified (governed or explicitly ungoverned) in spec/privileges.spec",
@@ -60,6 +63,7 @@ func init() {
 			{Plugin: "sites", Func: "mobius.(*YAMLAccountManager).Update", Kinds: []string{"site", "post", "guarded"}},
 			{Plugin: "sites", Func: "mobius.(*YAMLAccountManager).Delete", Kinds: []string{"site", "post", "guarded"}},
 			{Plugin: "sites", Func: "mobius.(*YAMLAccountManager).Get", Kinds: []string{"site", "post", "guarded"}},
+			{Plugin: "sites", Func: "hotline.HashAndSalt", Kinds: []string{"site"}},
 		}, fnItems(nil, "hotline.(*handshake).Valid", "hotline.(*handshake).Write")...),
 		Decided: []string{
 			"the account table Authenticate consults is maintained exactly: Create adds, Update leaves exactly the new login (a renamed-away login is gone), Delete removes, all other entries unchanged (whole-map contracts of the YAML account manager)",
@@ -130,6 +134,7 @@ func init() {
 			{Plugin: "handler-contract", Func: "mobius.HandleSetUser", Kinds: []string{"site"}},
 			{Plugin: "sites", Func: "mobius.NewYAMLAccountManager", Kinds: []string{"site", "inv-step", "inv-init"}},
 			{Plugin: "yamltags", Opts: "hotline.Account"},
+			{Plugin: "sites", Func: "hotline.HashAndSalt", Kinds: []string{"site"}},
 			{Plugin: "sites", Func: "hotline.(*Field).DecodeObfuscatedString", Kinds: []string{"site"}}, {Func: "hotline.EncodeString"},
 			{Plugin: "passwords", Func: "mobius.HandleUpdateUser"},
 			{Func: "hotline.NewAccount"},
@@ -174,6 +179,8 @@ func init() {
 			{Plugin: "handler-contract", Func: "mobius.HandleJoinChat", Kinds: []string{"site"}},
 			{Plugin: "handler-contract", Func: "mobius.HandleLeaveChat", Kinds: []string{"site"}},
 			{Plugin: "handler-contract", Func: "mobius.HandleSetChatSubject", Kinds: []string{"site"}},
+			// who a chat line reaches is decided by client IDs: they must be unique among the connected
+			{Func: "hotline.(*MemClientMgr).Add"}, {Func: "hotline.(*MemClientMgr).Get"}, {Func: "hotline.(*MemClientMgr).Delete"}, {Func: "hotline.(*MemClientMgr).List"},
 		}, fnItems([]string{"post", "guarded"}, "hotline.(*MemChatManager).Join", "hotline.(*MemChatManager).Leave", "hotline.(*MemChatManager).New")...),
 		Decided: []string{
 			"HandleChatSend: every chat line handed to a recipient (field 101 of a chat message) is at most 8192 bytes long, in the plain and in the emote form; a public line is addressed only to clients whose account holds read-chat; every transaction it produces is a chat message (106)",
@@ -188,9 +195,10 @@ func init() {
 			{Plugin: "sites", Func: "mobius.(*ThreadedNewsYAML).DeleteArticle", Kinds: []string{"site", "post"}},
 			{Plugin: "sites", Func: "mobius.(*ThreadedNewsYAML).CreateGrouping", Kinds: []string{"site", "post"}},
 			{Plugin: "yamltags", Opts: "hotline.ThreadedNews hotline.NewsCategoryListData15 hotline.NewsArtData"},
-			{Plugin: "sites", Func: "mobius.(*ThreadedNewsYAML).DeleteNewsItem", Kinds: []string{"site", "guarded"}},
-			{Plugin: "sites", Func: "mobius.(*ThreadedNewsYAML).GetArticle", Kinds: []string{"guarded"}},
-			{Plugin: "sites", Func: "mobius.(*ThreadedNewsYAML).ListArticles", Kinds: []string{"site", "guarded"}},
+			{Plugin: "sites", Func: "mobius.(*ThreadedNewsYAML).DeleteNewsItem", Kinds: []string{"site", "guarded", "inv-init"}},
+			{Plugin: "sites", Func: "mobius.(*ThreadedNewsYAML).GetArticle", Kinds: []string{"guarded", "inv-init"}},
+			{Plugin: "sites", Func: "mobius.(*ThreadedNewsYAML).ListArticles", Kinds: []string{"site", "guarded", "inv-init"}},
+			{Plugin: "sites", Func: "mobius.(*ThreadedNewsYAML).getCatByPath", Kinds: []string{"inv-init", "inv-step", "post"}},
 			{Plugin: "sites", Func: "hotline.(*NewsCategoryListData15).GetNewsArtListData", Kinds: []string{"site"}},
 		}, fnItems(nil, "hotline.(*NewsArtList).Read", "hotline.(*NewsArtListData).Read", "hotline.(*NewsCategoryListData15).Read")...),
 		Decided: []string{
@@ -278,6 +286,7 @@ func init() {
 			{Plugin: "handler-contract", Func: "mobius.HandleDownloadFolder", Kinds: []string{"site"}},
 			{Plugin: "handler-contract", Func: "mobius.HandleUploadFolder", Kinds: []string{"site"}},
 			{Plugin: "sites", Func: "hotline.receiveFile", Kinds: siteKinds},
+			{Plugin: "sites", Func: "hotline.(*folderUpload).FormattedPath", Kinds: []string{"site"}},
 		}, fnItems(nil, "hotline.CalcItemCount$1", "hotline.(*FileHeader).Read", "hotline.NewFileHeader", "hotline.EncodeFilePath", "hotline.(*FileResumeData).UnmarshalBinary", "hotline.(*FileTransfer).ItemCount")...),
 		Decided: []string{
 			"both walk callbacks: an entry is counted / gets an item header exactly when the walk reported no error for it and its name does not start with a dot (the download additionally skips the first visited entry, the count subtracts one); neither callback prunes the walk or fails unless the walk or the environment did",
@@ -296,6 +305,7 @@ func init() {
 			{Plugin: "sites", Func: "hotline.(*fileWrapper).TotalSize", Kinds: []string{"site"}},
 			{Plugin: "paths", Func: "mobius.HandleNewFolder", Kinds: []string{"site"}},
 			{Plugin: "paths", Func: "mobius.HandleSetFileInfo", Kinds: []string{"site", "post"}},
+			{Plugin: "handler-contract", Func: "mobius.HandleMoveFile", Kinds: []string{"site"}},
 			{Func: "hotline.(*FileNameWithInfo).Read"}, {Func: "hotline.ignoreFile"}, {Func: "hotline.fileTypeFromFilename"},
 		},
 		Decided: []string{
@@ -312,18 +322,20 @@ func init() {
 		Items: append([]Item{
 			{Plugin: "sites", Func: "hotline.(*Server).sendTransaction", Kinds: siteKinds},
 			{Plugin: "sites", Func: "hotline.sendBanMessage", Kinds: siteKinds},
-		}, fnItems(nil, "hotline.(*ClientConn).NewReply", "hotline.(*ClientConn).NewErrReply", "hotline.NewTransaction", "hotline.NewField", "hotline.(*Field).Read", "hotline.(*MemClientMgr).Add", "hotline.(*MemClientMgr).Get")...),
+		}, fnItems(nil, "hotline.(*ClientConn).NewReply", "hotline.(*ClientConn).NewErrReply", "hotline.NewTransaction", "hotline.(*Transaction).Read", "hotline.(*Transaction).Size", "hotline.NewField", "hotline.(*Field).Read", "hotline.(*MemClientMgr).Add", "hotline.(*MemClientMgr).Get")...),
 		Decided: []string{
+			"Transaction.Read serialises without consuming: fields and their cursors are untouched, so a transaction that is broadcast, or read in several pieces, is whole for every recipient (frame obligations of Read and of its field loop)",
 			"sendTransaction sets no write deadline on the connection (a timed-out partial Write would leave half a frame on a connection that stays in use)",
 			"sendTransaction hands a transaction to the connection with at most one Write and never through a chunking copy (so concurrently sent transactions cannot interleave inside one another)",
 			"NewReply / NewErrReply: reply flag set, the request's ID and the requester's client ID copied, error code 1 on error replies, the error field well-formed",
 			"NewField / Field.Read: the length prefix equals the data length; registry routing: a client ID addresses the client registered under it and IDs of live clients are distinct (MemClientMgr.Add/Get)",
 		},
-		Undecided: []string{"Transaction.Read as a whole (field concatenation) is not yet under contract", "delivery order between goroutines; at most one reply per request per handler"},
+		Undecided: []string{"the bytes of Transaction.Read after the 22-byte header (field concatenation) are not under a functional contract", "delivery order between goroutines; at most one reply per request per handler"},
 	}
 	plans["C13"] = &Plan{
 		Items: append(fnItems(nil, "hotline.(*UserFlags).IsSet", "hotline.(*MemClientMgr).Add", "hotline.(*MemClientMgr).Delete", "hotline.(*MemClientMgr).Get", "hotline.(*MemClientMgr).List"),
 			Item{Plugin: "handler-contract", Func: "mobius.HandleSetClientUserInfo", Kinds: []string{"site"}},
+			Item{Plugin: "handler-contract", Func: "mobius.HandleTranAgreed", Kinds: []string{"site"}},
 			Item{Plugin: "sites", Func: "hotline.(*ClientConn).NotifyOthers", Kinds: []string{"site", "inv-step", "inv-init"}},
 			Item{Plugin: "sites", Func: "hotline.(*ClientConn).Disconnect", Kinds: []string{"site", "post", "inv-step", "inv-init"}},
 			Item{Plugin: "sites", Func: "hotline.(*ClientConn).SendAll", Kinds: []string{"site", "inv-step", "inv-init"}},
@@ -341,7 +353,8 @@ func init() {
 	}
 	plans["C16"] = &Plan{
 		Items: []Item{{Plugin: "accesstables"}, {Func: "hotline.(*AccessBitmap).IsSet"}, {Func: "hotline.(*AccessBitmap).Set"}, {Func: "hotline.(*ClientConn).Authorize"},
-			{Plugin: "sites", Func: "mobius.NewYAMLAccountManager", Kinds: []string{"site", "inv-step", "inv-init"}}},
+			{Plugin: "sites", Func: "mobius.NewYAMLAccountManager", Kinds: []string{"site", "inv-step", "inv-init"}},
+			{Func: "hotline.NewAccount"}},
 		Decided: []string{
 			"the account loader (including the migration of legacy-format files) never sets a privilege bit itself: what a file grants is what UnmarshalYAML decoded",
 			"IsSet(i) is bit i counted from the most significant bit of byte 0; Set(i) sets exactly that bit (all 64 indices, all byte values)",
